@@ -546,7 +546,7 @@ impl<'a> G<'a> {
         self.tag("continue");
         let i = self.fresh("i");
         let c = self.boolean(d);
-        match self.rng.below(12) {
+        match self.rng.below(15) {
             0 => {
                 self.tag("continue-numeric-for");
                 self.push(format!("for {i} = 1, 4 do if {i} % 2 == 0 then continue end emit({i}) if {i} == 3 then break end end", i = i));
@@ -597,6 +597,23 @@ impl<'a> G<'a> {
                 } else {
                     self.tag("continue-repeat");
                     self.push(format!("local {i} = 0 repeat {i} += 1 local x = {i} if x == 1 then continue end emit(x) until {i} >= 3", i = i));
+                }
+            }
+            12 | 13 => {
+                // the loop body has a LAST statement of its own (unconditional `break` / `return`) after a
+                // conditional `continue`: the wrapper must not set the flag on that path (`flag = true` is
+                // only appended to bodies without a last statement), for every loop kind
+                self.tag("continue-body-with-last-statement");
+                let f = self.fresh("cl");
+                let head = match self.rng.below(3) {
+                    0 => format!("for {i} = 1, 4 do", i = i),
+                    1 => format!("local {i} = 0 while {i} < 4 do {i} += 1", i = i),
+                    _ => format!("for _, {i} in ipairs({{1, 2, 3, 4}}) do", i = i),
+                };
+                if self.rng.chance(1, 2) {
+                    self.push(format!("{head} if {i} == 1 then continue end emit({i}) break end emit(\"after\")", head = head, i = i));
+                } else {
+                    self.push(format!("local function {f}() {head} if {i} < 2 then continue end emit({i}) return {i} end return 0 end emit({f}())", f = f, head = head, i = i));
                 }
             }
             _ => {
